@@ -4,7 +4,7 @@ text and the list of earlier changes only) and creates the agent's worktree /tmp
 import json, os, subprocess, sys, glob
 ROUND = sys.argv[1]
 props = {json.loads(l)['id']: json.loads(l) for l in open('/verif/properties.jsonl')}
-tmpl = open('/tmp/seed/C19.prompt.txt').read() if os.path.exists('/tmp/seed/C19.prompt.txt') else open('/verif/tools/seed_prompt_template.txt').read()
+tmpl = open('/verif/tools/seed_prompt_template.txt').read()
 head = tmpl[:tmpl.index('{\n "id": "C19"')]
 rest = tmpl[tmpl.index('Your task: design ONE OR TWO'):]
 rest = rest[:rest.index('This is a FOURTH round.')]
